@@ -66,6 +66,7 @@ def variant_pool(rng, n):
         [[1, 1, 1, 1], [2, 2, 2, 2], [-1, -1, -1, -1]],
         [[-1, 1, -1, 1], [-1, 1, -1, 1], [-1, 2, -1, 2]],
         [[-1, -1, 1, -1], [1, -1, 2, -1], [-1, -1, -1, -1]],
+        [[1, -1, 1, -1], [1, -1, 2, -1], [-1, -1, -1, -1]],       # same output type, two input types: the X consumer overwrites its copy
     ]
     out = fixed[:n]
     while len(out) < n:
@@ -150,7 +151,7 @@ def run(ctx):
     model_level(ctx, d)
     ctx.build()
     rng = ctx.rng
-    nvar = 6 if ctx.quick else 24
+    nvar = 7 if ctx.quick else 24
     variants = variant_pool(rng, nvar)
     with cf.ThreadPoolExecutor(max_workers=4) as ex:
         exes = list(ex.map(lambda iv: build_variant(ctx, iv[0], iv[1]), enumerate(variants)))
